@@ -155,6 +155,7 @@ struct Ctx {
     std::vector<StrObj *> strs;
     std::vector<SsObj *> sss;
     std::vector<VecObj *> vecs;
+    void *fmt_slots[4] = {nullptr, nullptr, nullptr, nullptr};     // stored "..."_stfmt formatter objects (ops_str_b.cpp)
     uint64_t next_serial = 1;
     int step = 0;
     Viol viol;
@@ -252,6 +253,7 @@ template <class T> BufObj<T> *add_buf(Ctx &c, void *mem);
 StrObj *add_str(Ctx &c, void *mem);
 SsObj *add_ss(Ctx &c, void *mem);
 VecObj *add_vec(Ctx &c, void *mem);
+void destroy_fmt_slots(Ctx &c);     // ops_str_b.cpp
 void destroy_all(Ctx &c);            // destroys every live object (library destructors run as SUT code)
 
 // per-family executors; return false if the kind is not theirs
@@ -262,6 +264,13 @@ bool exec_str_b(Ctx &c, const Op &op);    // const operations
 
 // selection helpers
 template <class V> typename V::value_type pick(V &v, uint32_t sel) { return v.empty() ? nullptr : v[sel % v.size()]; }
+// strings above 64 KiB are not used as operands any more (keeps histories from requesting gigabytes through repeated
+// self-concatenation or replace; the objects stay in the pool and are checked and destroyed like all others)
+static const size_t MAX_OPERAND_BYTES = 65536;
+inline StrObj *pick(std::vector<StrObj *> &v, uint32_t sel) {
+    for (size_t k = 0, n = v.size(); k < n; k++) { StrObj *o = v[(sel + k) % n]; if (o->model.size() <= MAX_OPERAND_BYTES || o->st != M_DEFINITE) return o->model.size() <= MAX_OPERAND_BYTES ? o : nullptr; }
+    return nullptr;
+}
 StrObj *pick_str_wf(Ctx &c, uint32_t sel);          // a string whose model is strictly well-formed (or nullptr)
 BufObj<char> *pick_b8_text(Ctx &c, uint32_t sel);   // a char buffer without C03 hazard bytes
 
